@@ -38,10 +38,14 @@ package parser
 
 // An expression that the parser recorded has a source range; the generator also builds expressions of its own
 // (no range): those must never be entered into the map - Add would file them under source position 0:0.
-//@ typeinv Expression(e): len(e.Value) == 0 || e.Range.To.Index > e.Range.From.Index
+// srcText(from, to) is a ghost: the template text that the parser recorded for the range - an expression that
+// comes from the parser carries the text of its own range; an expression the generator makes up and gives a
+// borrowed range does not, and must not be entered either (its bytes are not the bytes at those source positions).
+//@ typeinv Expression(e): len(e.Value) == 0 || (e.Range.To.Index > e.Range.From.Index && uf("srcText", e.Range.From.Index, e.Range.To.Index) == e.Value)
 
 //@ func (*SourceMap) Add [C07]
 //@   callsite requires len(src.Value) == 0 || src.Range.To.Index > src.Range.From.Index
+//@   callsite requires {C07} len(src.Value) == 0 || uf("srcText", src.Range.From.Index, src.Range.To.Index) == src.Value
 // at a call site in the generator (g the generator, g.w its range writer): the target range is where the
 // expression's own text was just written - the bytes of the output at tgt.From.Index are src.Value, and
 // tgt.From is the line / column of that offset
